@@ -341,6 +341,15 @@ func mentions2(f *ssa.Function, pred func(ssa.Value) bool) bool {
 	return false
 }
 
+// functions that run only on the block-processor goroutine (the single writer of
+// Chain.bestBlockHeader; confinement is decided by the who-calls obligations below) or before it starts
+var bestHeaderOwnGoroutine = map[string]string{
+	"(*protocol.Chain).processBlock":    "block-processor goroutine",
+	"(*protocol.Chain).tryReorganize":   "block-processor goroutine",
+	"(*protocol.Chain).reorganizeChain": "block-processor goroutine",
+	"protocol.NewChainWithOrphanManage": "constructor, before the processor goroutine starts",
+}
+
 func ruleC37(c *Ctx) {
 	c.Explain("C37 (structural part): lockset + blocking-under-lock + who-writes. Decided: Casper.tree is read and written only under Casper.mu (write mode for writes), except in the constructor; no receive, blocking select, unbuffered send or Wait happens while Casper.mu is held anywhere in protocol/casper (the rollback hand-off to the chain goroutine, which itself needs Casper.mu, must wait with the lock released); Chain.bestBlockHeader is written only by the constructor and by setState under cond.L, and setState/reorganizeChain/processBlock are reached only from the single blockProcessor goroutine (plus start-up); the transaction pool's maps and LRU are accessed under TxPool.mtx, with the write lock for anything that mutates (LRU Get included); OrphanManage's maps under its mutex. Not decided: progress under all schedules; races on heap objects reachable from several owners (checkpoints shared through caches).")
 	li := c.Lockset(pCasper)
@@ -358,6 +367,22 @@ func ruleC37(c *Ctx) {
 			c.Require("lockset", "Chain.bestBlockHeader written under cond.L in "+fname(w.Fn), held.holds("protocol.Chain.cond.L", true), "locks at the store: %s", held.String())
 		}
 	}
+	// reads: under cond.L, or on the single writer's own goroutine (block processor and start-up),
+	// where no concurrent write can happen. A helper split off those functions inherits the
+	// exemption only if every caller is one of them (ownership closure).
+	bbhReaders := map[string]string{}
+	for n, why := range bestHeaderOwnGoroutine {
+		bbhReaders[n] = why
+	}
+	for _, a := range lp.accessesOf("protocol.Chain", "bestBlockHeader") {
+		n := fname(topFunc(a.Fn))
+		if _, ok := bbhReaders[n]; !ok {
+			if why, owned := c.ownedBy(n, bestHeaderOwnGoroutine, 3); owned {
+				bbhReaders[n] = why
+			}
+		}
+	}
+	c.RequireGuardedBy("lockset", lp, "protocol.Chain", "bestBlockHeader", "protocol.Chain.cond.L", bbhReaders)
 	// single-writer goroutine confinement
 	c.RequireCallers("whocalls", c.Func(pProto, "(*Chain).setState"), map[string]string{"(*protocol.Chain).reorganizeChain": "only entry"})
 	c.RequireCallers("whocalls", c.Func(pProto, "(*Chain).tryReorganize"), map[string]string{
